@@ -141,6 +141,11 @@ func build(c Case) *built {
 	case "cross-phase":
 		d := b.objs[0][0].DeepCopy()
 		phases[len(phases)-1].Objects = append(phases[len(phases)-1].Objects, world.O(d))
+	case "other-version":
+		// the same object through another served version of its API
+		d := b.objs[0][0].DeepCopy()
+		d.SetAPIVersion(world.TestGroup + "/v2")
+		phases[len(phases)-1].Objects = append(phases[len(phases)-1].Objects, world.O(d))
 	case "via-defaulting":
 		d := b.objs[0][0].DeepCopy()
 		if d.GetNamespace() == "" {
@@ -361,7 +366,7 @@ func enumerate(quick bool) []Case {
 			}
 		}
 		// duplicates
-		for _, d := range []string{"same-phase", "cross-phase", "via-defaulting"} {
+		for _, d := range []string{"same-phase", "cross-phase", "via-defaulting", "other-version"} {
 			cases = append(cases, Case{Owner: owner, Phases: [][]string{{"V"}, {"V"}}, Dup: d})
 			cases = append(cases, Case{Owner: owner, Phases: [][]string{{"V", "V"}, {"V"}}, Dup: d})
 		}
@@ -382,7 +387,7 @@ func enumerate(quick bool) []Case {
 
 func run(o checks.Opts) *report.Report {
 	rep := report.New("C11", "enumeration")
-	rep.Rule = "phase contents from slot kinds {valid, unknown API, preset ownerReferences, foreign namespace, cluster-scoped kind without/with own/with other namespace, dry-run rejected} at every position of [2 objects][1 object] (+ single-object, three-phase and duplicate variants; thorough adds [1][2][1]), owners {ObjectSet, ClusterObjectSet, same-cluster ObjectSetPhase, ClusterObjectSetPhase}, rollout (two passes) and teardown (objects pre-existing and controlled, owner deleted, up to 4 passes); distinct = (owner, outcome, which phase first fails preflight)"
+	rep.Rule = "phase contents from slot kinds {valid, unknown API, preset ownerReferences, foreign namespace, cluster-scoped kind without/with own/with other namespace, dry-run rejected} at every position of [2 objects][1 object] (+ single-object, three-phase and duplicate variants - same phase, across phases, via namespace defaulting, through another served API version; thorough adds [1][2][1]), owners {ObjectSet, ClusterObjectSet, same-cluster ObjectSetPhase, ClusterObjectSetPhase}, rollout (two passes) and teardown (objects pre-existing and controlled, owner deleted, up to 4 passes); distinct = (owner, outcome, which phase first fails preflight)"
 	cases := enumerate(o.Quick())
 	rep.Bounds["cases"] = len(cases)
 	for i, c := range cases {
